@@ -643,6 +643,43 @@ type c17ParseCase struct {
 	Fault []int    `json:"fault"` // failing call index per case (-1 = none), parallel to Cuts
 	Kind  string   `json:"kind"`
 	ShortN int     `json:"shortn"`
+	Dir    string  `json:"dir"` // scratch directory for op "open" (hdf5.Open needs a file)
+}
+
+func c17vNode(o hdf5.Object) interface{} {
+	switch x := o.(type) {
+	case *hdf5.Group:
+		ch := []interface{}{}
+		for _, c := range x.Children() {
+			ch = append(ch, c17vNode(c))
+		}
+		return []interface{}{uint64(0), hex.EncodeToString([]byte(x.Name())), ch}
+	case *hdf5.Dataset:
+		return []interface{}{uint64(1), hex.EncodeToString([]byte(x.Name())), x.Address()}
+	case *hdf5.NamedDatatype:
+		return []interface{}{uint64(2), hex.EncodeToString([]byte(x.Name())), x.VerifAddress()}
+	}
+	return []interface{}{uint64(9)}
+}
+
+// c17OpenTree: hdf5.Open on a scratch file holding img; the tree of names / kinds / addresses.
+func c17OpenTree(dir string, img []byte) (interface{}, error) {
+	f, err := os.CreateTemp(dir, "open-*.h5")
+	if err != nil {
+		panic("harness: " + err.Error())
+	}
+	name := f.Name()
+	defer os.Remove(name)
+	if _, err := f.Write(img); err != nil {
+		panic("harness: " + err.Error())
+	}
+	f.Close()
+	h, err := hdf5.Open(name)
+	if err != nil {
+		return nil, err
+	}
+	defer h.Close()
+	return c17vNode(h.Root()), nil
 }
 
 func c17ParseOne(op string, r io.ReaderAt, sb *core.Superblock, addr uint64, args []uint64) (interface{}, error) {
@@ -934,7 +971,7 @@ func init() {
 		}
 		// the superblock the dependent parsers are given is the intact file's
 		var sb *core.Superblock
-		if c.Op != "superblock" {
+		if c.Op != "superblock" && c.Op != "open" {
 			sb, err = core.ReadSuperblock(&c17ImgReader{img})
 			if err != nil {
 				return nil, fmt.Errorf("harness: intact superblock: %w", err)
@@ -966,6 +1003,15 @@ func init() {
 						res[i] = one{Class: 2, Calls: fr.calls}
 					}
 				}()
+				if c.Op == "open" {
+					v, err := c17OpenTree(c.Dir, b)
+					if err != nil {
+						res[i] = one{Class: 1}
+					} else {
+						res[i] = one{Class: 0, V: v}
+					}
+					return
+				}
 				v, err := c17ParseOne(c.Op, fr, sb, c.Addr, c.Args)
 				if err != nil {
 					res[i] = one{Class: 1, Calls: fr.calls}
